@@ -228,3 +228,17 @@ V("C14", "save-swapped", IMG, '                if min_value is not None:\n      
 V("C14", "leaf-stale-range", PYR, "            self.write_image(pos, img, format=format or self._default_format)", "            self.write_image(pos, img, format=format or self._default_format, min_value=img.data_min, max_value=img.data_max)", "C14.R3")
 V("C14", "skip-none-children-wrong", MERGE, "                    if image.data_min is not None:\n                        min_values.append(image.data_min)", "                    if image.data_min:\n                        min_values.append(image.data_min)", "C14.R2")
 V("C14", "P-lookup-get", IMG, "        value = None\n        if keyword in header:\n            value = header[keyword]\n        return value", "        return header.get(keyword)", "HOLDS")
+
+# ---------------------------------------------------------------- C15
+V("C15", "i16-dropped", IMG, "        elif self.mode in (ImageMode.RGBA, ImageMode.U8, ImageMode.I16, ImageMode.I32):\n            b.fill(0)", "        elif self.mode in (ImageMode.RGBA, ImageMode.U8, ImageMode.I32):\n            b.fill(0)", "C15.R1")
+V("C15", "floats-cleared-zero", IMG, "        elif self._mode in (ImageMode.F32, ImageMode.F64, ImageMode.F16x3):\n            self.asarray().fill(np.nan)", "        elif self._mode in (ImageMode.F32, ImageMode.F64, ImageMode.F16x3):\n            self.asarray().fill(0)", "C15.R2")
+V("C15", "alpha-channel-0", IMG, "            return np.all(i[..., 3] == 0)", "            return np.all(i[..., 0] == 0)", "C15.R2")
+V("C15", "update-fills", IMG, "            valid = ~np.isnan(sub_i)\n            np.putmask(sub_b, valid, sub_i)", "            valid = ~np.isnan(sub_i)\n            np.putmask(b, valid, sub_i)", "C15.R3")
+V("C15", "rgba-valid-inverted", IMG, "            valid = sub_i[..., 3] != 0", "            valid = sub_i[..., 3] == 0", "C15.R2")
+V("C15", "ints-overwrite", IMG, "            np.maximum(sub_b, sub_i, out=sub_b)", "            sub_b[...] = sub_i", "C15.R2")
+V("C15", "dtype-table-drift", IMG, '            elif dtype.kind == "i" and dtype.itemsize == 2:\n                return cls.I16', '            elif dtype.kind == "u" and dtype.itemsize == 2:\n                return cls.I16', "C15.R4")
+V("C15", "errno-any", PYR, "            if e.errno != 2:\n                raise  # not EEXIST", "            if e.errno != 2 and False:\n                raise  # not EEXIST", "C15.R5")
+V("C15", "masked-not-cleared", PYR, "                buf = masked_mode.make_maskable_buffer(256, 256)\n                buf.clear()\n                return buf", "                buf = masked_mode.make_maskable_buffer(256, 256)\n                return buf", "C15.R5")
+V("C15", "mode-duplicated", IMG, "        if self.mode in (ImageMode.RGB, ImageMode.U8, ImageMode.I16, ImageMode.I32):\n            return False", "        if self.mode in (ImageMode.RGB, ImageMode.RGBA, ImageMode.U8, ImageMode.I16, ImageMode.I32):\n            return False", "C15.R")
+V("C15", "P-branch-order", IMG, "        if self.mode in (ImageMode.RGB, ImageMode.U8, ImageMode.I16, ImageMode.I32):\n            return False\n        elif self.mode in (ImageMode.F32, ImageMode.F64, ImageMode.F16x3):\n            return np.all(np.isnan(i))",
+  "        if self.mode in (ImageMode.F64, ImageMode.F32, ImageMode.F16x3):\n            return np.all(np.isnan(i))\n        elif self.mode in (ImageMode.I32, ImageMode.RGB, ImageMode.U8, ImageMode.I16):\n            return False", "HOLDS")
